@@ -19,7 +19,7 @@ REQUIRED_MONITORS = ["action@SSI dialog(enumerated)", "action@SSI dialog(random)
 ALL_STATES = ["picks in descending frequency order", "same pole picked twice", "deselect-one with >= 2 selected", "deselect-nearest with >= 2 selected", "click without modifier ignored",
               "click outside the axes", "pick on a column without poles", "deselect on empty selection", "modifier released before click"]
 REQUIRED_STATES = ["picks in descending frequency order", "deselect-one with >= 2 selected", "deselect-nearest with >= 2 selected", "click without modifier ignored",
-                   "click outside the axes", "deselect on empty selection", "modifier released before click"]
+                   "click outside the axes", "deselect on empty selection", "modifier released before click", "dialog opened with freqlim"]
 RULE = ("the real SelFromPlot dialog is constructed with Tk replaced by inert stand-ins and driven by real matplotlib Mouse/Key events dispatched through "
         "the canvas callback registry at pixel positions computed from data coordinates; ALL sequences up to length 3 (quick) / 4 (thorough) over "
         "{shift down, shift up, pick at each of 6 poles of a 3x4 table, deselect-one, deselect-nearest at 2 positions}; random length-6 sequences at "
@@ -256,7 +256,7 @@ class Session:
             self.fail(f"selection:{mech}", f"dialog holds {sorted(zip(f, i))}, picked and still selected: {sorted(self.model)}")
 
 
-def drive(ctx, algo, plot, tag, actions_fn):
+def drive(ctx, algo, plot, tag, actions_fn, freqlim=None):
     """constructs the real dialog; actions_fn(session) runs inside mainloop. Returns (dialog, session)."""
     holder = {}
     out = {}
@@ -268,7 +268,7 @@ def drive(ctx, algo, plot, tag, actions_fn):
 
     holder["script"] = script
     with headless(holder) as sfp:
-        dlg = sfp.SelFromPlot(algo, freqlim=None, plot=plot)
+        dlg = sfp.SelFromPlot(algo, freqlim=freqlim, plot=plot)
     return dlg, out.get("session")
 
 
@@ -376,7 +376,7 @@ def run_random(ctx, case):
             elif u < 0.16:
                 s.key(True)
             else:
-                x = float(rng.uniform(0.5, 49.5)) if rng.random() < 0.6 else float(rng.choice(fn) + rng.uniform(-0.5, 0.5))
+                x = float(rng.uniform(3.5, 39.5)) if rng.random() < 0.6 else float(rng.choice(fn) + rng.uniform(-0.5, 0.5))
                 if plot == "FDD":
                     y = float(rng.uniform(-40, -1))
                 else:
@@ -386,7 +386,11 @@ def run_random(ctx, case):
             if not s.ok:
                 break
 
-    dlg, s = drive(ctx, algo, plot, tag, rand_actions)
+    flim = None
+    if rng.random() < 0.4:
+        flim = (float(rng.uniform(1.0, 3.0)), float(rng.uniform(40.0, 49.0)))  # a window that starts above the first spectral line
+        ctx.state("dialog opened with freqlim")
+    dlg, s = drive(ctx, algo, plot, tag, rand_actions, freqlim=flim)
     check_result(ctx, dlg, s, plot)
     if s is not None and s.nontrivial:
         ctx.nontrivial((plot, str(s.hist)))
@@ -409,12 +413,13 @@ def run_random(ctx, case):
 
     holder["script"] = script
     name = {"SSI": "ssi", "pLSCF": "plscf", "FDD": "fdd"}[plot]
+    flim2 = (float(rng.uniform(1.0, 3.0)), 49.0) if rng.random() < 0.4 else None
     with headless(holder):
         try:
             if plot == "FDD":
-                ss.mpe_from_plot(name, DF=0.5)
+                ss.mpe_from_plot(name, DF=0.5, freqlim=flim2)
             else:
-                ss.mpe_from_plot(name, rtol=1e-6)
+                ss.mpe_from_plot(name, rtol=1e-6, freqlim=flim2)
         except Exception as e:  # noqa: BLE001
             s2 = sess.get("s")
             if s2 is not None and s2.ok and s2.model:
